@@ -89,6 +89,10 @@ impl<K> HashSet<K> {
     #[verifier::external_body]
     pub fn from(a: [K; 1]) -> (r: Self) { unimplemented!() }
     #[verifier::external_body]
+    pub fn is_empty(&self) -> (r: bool)
+        ensures r == (self@ =~= Set::<K>::empty()),
+    { unimplemented!() }
+    #[verifier::external_body]
     pub fn contains(&self, k: &K) -> (r: bool)
         ensures r == self@.contains(*k),
     { unimplemented!() }
